@@ -122,9 +122,9 @@ class Cfg:
                 self.hops[tk[1]] = (tk[2], _kv(tk[3:]))
             elif tk[0] == "route" and len(tk) >= 3:
                 tbl = {"in": self.rin, "out": self.rout, "net": self.rnet}.get(tk[1])
-                if tbl is not None and tk[2] not in tbl: tbl[tk[2]] = tk[3:]
+                if tbl is not None: tbl[tk[2]] = tk[3:]          # a later declaration replaces an earlier one
             elif tk[0] == "mtu" and len(tk) >= 3:
-                if tk[1] not in self.mtu: self.mtu[tk[1]] = int(tk[2])
+                self.mtu[tk[1]] = int(tk[2])
             elif tk[0] == "do" and len(tk) >= 3:
                 o = tk[2]
                 if o[0] in "sa" and "." in o and o[1:o.index(".")].isdigit(): self.has_tcp = True
